@@ -349,10 +349,13 @@ def emit() -> str:
     sets_now = any(isinstance(s, ast.Assign) and ast.unparse(s) == "self.current_timestep = timestep" for s in _body(pre))
     lim = find_method(usm, "remote_session_limit_reached")
     r = _body(lim)[0]
-    if not (isinstance(r, ast.Return) and isinstance(r.value, ast.Compare) and ast.unparse(r.value.left) == "len(self.remote_sessions)"
+    # (informational since round 7c: the method is TRANSLATED in session_tr.py and proved equal to the model's test, so another shape
+    # no longer raises here)
+    if (isinstance(r, ast.Return) and isinstance(r.value, ast.Compare) and ast.unparse(r.value.left) == "len(self.remote_sessions)"
             and ast.unparse(r.value.comparators[0]) == "self.max_remote_sessions"):
-        raise ValueError("remote_session_limit_reached: unrecognised shape")
-    limcmp = _CMP[type(r.value.ops[0])]
+        limcmp = _CMP.get(type(r.value.ops[0]), "?")
+    else:
+        limcmp = "?"
     val = _body(find_method(usm, "validate_remote_session_uuid"))[0]
     validate_is_membership = isinstance(val, ast.Return) and ast.unparse(val.value) == "remote_session_id in self.remote_sessions"
 
@@ -400,11 +403,14 @@ def emit() -> str:
     auth = find_method(um, "authenticate_user")
     auth_guard = _guarded_by_can_perform(auth, "None")
     ab = _body(auth)
-    if not (ast.unparse(ab[1]) == "user = self.users.get(username)" and isinstance(ab[2], ast.If)):
-        raise ValueError("authenticate_user: unrecognised shape")
-    auth_terms = _and_terms(ab[2].test)
-    auth_returns_user = any(isinstance(s, ast.Return) and ast.unparse(s.value) == "user" for s in ab[2].body)
-    auth_else_none = isinstance(ab[-1], ast.Return) and ast.unparse(ab[-1].value) == "None"
+    # informational since round 7c (authenticate_user, _login, disable_user, _is_last_admin are TRANSLATED in session_tr.py and proved
+    # equal to the model's tests: C16_gen_login_guards, C16_gen_disable_user); another shape gives empty values, never an exception
+    if len(ab) > 2 and ast.unparse(ab[1]) == "user = self.users.get(username)" and isinstance(ab[2], ast.If):
+        auth_terms = _and_terms(ab[2].test)
+        auth_returns_user = any(isinstance(s, ast.Return) and ast.unparse(s.value) == "user" for s in ab[2].body)
+        auth_else_none = isinstance(ab[-1], ast.Return) and ast.unparse(ab[-1].value) == "None"
+    else:
+        auth_terms, auth_returns_user, auth_else_none = [], False, False
 
     # ---- change_user_password
     chp = find_method(um, "change_user_password")
@@ -440,7 +446,8 @@ def emit() -> str:
     dis_guard = _guarded_by_can_perform(dis, "False")
     db = _body(dis)
     dis_ok = False
-    if isinstance(db[1], ast.If) and ast.unparse(db[1].test) == "username in self.users and (not self.users[username].disabled)":
+    if len(db) > 1 and isinstance(db[1], ast.If) and ast.unparse(db[1].test) == "username in self.users and (not self.users[username].disabled)" \
+            and len(db[1].body) > 1:
         inner = db[1].body
         if (isinstance(inner[0], ast.If) and ast.unparse(inner[0].test) == "self._is_last_admin(username)"
                 and isinstance(inner[0].body[-1], ast.Return) and ast.unparse(inner[0].body[-1].value) == "False"
@@ -454,8 +461,8 @@ def emit() -> str:
     lg = find_method(usm, "_login")
     lg_guard = _guarded_by_can_perform(lg, "None")
     lgb = _body(lg)
-    lg_auth = ast.unparse(lgb[1]) == "user = self._user_manager.authenticate_user(username=username, password=password)"
-    lg_reject = isinstance(lgb[2], ast.If) and ast.unparse(lgb[2].test) == "not user" and ast.unparse(lgb[2].body[-1]) == "return None"
+    lg_auth = len(lgb) > 1 and ast.unparse(lgb[1]) == "user = self._user_manager.authenticate_user(username=username, password=password)"
+    lg_reject = len(lgb) > 2 and isinstance(lgb[2], ast.If) and ast.unparse(lgb[2].test) == "not user" and ast.unparse(lgb[2].body[-1]) == "return None"
     lg_limit = any(isinstance(n, ast.If) and ast.unparse(n.test) == "not self.remote_session_limit_reached" for n in ast.walk(lg))
 
     # ---- direct requests of the session manager, enable_user, zero-duration power changes
